@@ -74,6 +74,25 @@ def cases(rng, tier):
                 if ln + d >= 0:
                     cs.append(Case(23, [code, {1: 0x40, 3: 0x40, 4: 0x80, 5: 0x40, 6: 0x40, 7: 0xC0, 8: 0xC0, 9: 0x80, 10: 0x80, 32: 0xC0}[code]],
                                    [gen.rbytes(rng, ln + d)], "length-off-by"))
+    # distinguished values under the right flags and a right length: all-zeros, all-ones, sign/class boundaries in the first
+    # and last octet (0.0.0.0, 255.255.255.255, loopback, multicast, AS 0 / AS_TRANS / 4294967295 ...): the decoders accept on
+    # length and flags alone, whatever the value means
+    good_flags = {1: 0x40, 3: 0x40, 4: 0x80, 5: 0x40, 6: 0x40, 7: 0xC0, 8: 0xC0, 9: 0x80, 10: 0x80, 32: 0xC0}
+    for code, lens in rules.items():
+        for ln in lens:
+            vals = set()
+            for fill in (0x00, 0xFF, 0x7F, 0x80, 0x01, 0xE0, 0xF0):
+                vals.add(bytes([fill]) * ln)
+                if ln:
+                    vals.add(bytes([fill]) + bytes(ln - 1))
+                    vals.add(bytes(ln - 1) + bytes([fill]))
+                    vals.add(bytes([fill]) + b"\xff" * (ln - 1))
+            if ln >= 2:
+                vals.add(b"\x5b\xa0" + bytes(ln - 2))          # AS_TRANS 23456 in the leading two octets
+                vals.add(bytes(ln - 2) + b"\x5b\xa0")
+            for v in sorted(vals):
+                for fl in (good_flags[code], good_flags[code] | 0x10):
+                    cs.append(Case(23, [code, fl], [v], "distinguished-values"))
     return cs
 
 
